@@ -214,7 +214,8 @@ impl<K: CacheKey + 'static> DiskCache<K> {
                             .is_some_and(|max| current_disk_usage > max as u64)
                     {
                         let excess_count = if current_entries > config.max_files {
-                            current_entries - (config.max_files * 90 / 100) // Evict to 90% capacity
+                            // Evict to 90% capacity (no overflow for a huge max_files)
+                            current_entries - (config.max_files - config.max_files.div_ceil(10))
                         } else {
                             0
                         };
